@@ -20,8 +20,10 @@ VARIABLES tid,      \* which trace
           l,        \* next event
           toks,     \* the token list (vhdlFile.lAllObjects), abstracted
           stale,    \* the role -> positions index may disagree with toks
-          fixPhase, skip, lastPS   \* --fix_phase, skip_phase, last (phase, subphase) that fixed
-vars == <<tid, l, toks, stale, fixPhase, skip, lastPS>>
+          fixPhase, skip, lastPS,  \* --fix_phase, skip_phase, last (phase, subphase) that fixed
+          indentFresh,             \* token indents were recomputed after the last structural / vertical change
+          normDone                 \* the phase-1 clean-up has happened in this fix run
+vars == <<tid, l, toks, stale, fixPhase, skip, lastPS, indentFresh, normDone>>
 
 Chk(name, ok) == IF ok THEN TRUE ELSE PrintT(<<"V", Traces[tid].tid, l, name>>)
 
@@ -32,8 +34,9 @@ Init == /\ tid \in 1..NT
         /\ toks = <<>>
         /\ stale = FALSE
         /\ fixPhase = 7 /\ skip = {} /\ lastPS = <<0, 0>>
+        /\ indentFresh = TRUE /\ normDone = FALSE
 
-Same == UNCHANGED <<toks, stale, fixPhase, skip, lastPS>>
+Same == UNCHANGED <<toks, stale, fixPhase, skip, lastPS, indentFresh, normDone>>
 
 \* --------------------------------------------------------------------------------------------- Parse
 Parse ==
@@ -45,6 +48,7 @@ Parse ==
                              /\ \A k \in 1..Len(ls) : FoldLeft(LAMBDA acc, t : acc + t[3], 0, ls[k]) = E.lineLens[k])
   /\ Chk("C02_CommentEndsLine", CommentEndsLine(E.toks))
   /\ toks' = E.toks /\ stale' = FALSE
+  /\ indentFresh' = TRUE /\ normDone' = FALSE         \* set_indent_map follows the parse
   /\ UNCHANGED <<fixPhase, skip, lastPS>>
 
 \* --------------------------------------------------------------------------------------------- Fix
@@ -109,12 +113,17 @@ FixStep ==
      \* ---- C13 / C20: only what --fix_phase, skip_phase and --fix_only allow, in phase order
      /\ Chk("C13_FixPhase", e.phase <= fixPhase /\ e.phase \notin skip)
      /\ Chk("C13_PhaseOrder", e.phase > lastPS[1] \/ (e.phase = lastPS[1] /\ e.sub >= lastPS[2]))
+     \* ---- schedule of rule_list.fix (mechanisms behind C09): the phase-1 clean-up precedes phase 2, and the indent
+     \*      levels the phase-4 (indent) rules apply were recomputed after the last phase 1-3 change
+     /\ Chk("C09_CleanUpBeforePhase2", e.phase < 2 \/ normDone \/ 1 \in skip)
+     /\ Chk("C09_IndentRecomputedBeforePhase4", e.phase < 4 \/ 4 \in skip \/ indentFresh)
      /\ Chk("C20_OnlyListed", \/ e.sel.m \in {-1, 1}
                               \/ (e.sel.m = 2 /\ \A k \in 1..nw : ws[k].line \in Range(e.sel.lines)))
      /\ toks' = t2
      /\ stale' = IF e.remap THEN FALSE ELSE (stale \/ Proj(t2, F_R) # Proj(toks, F_R))
      /\ lastPS' = <<e.phase, e.sub>>
-     /\ UNCHANGED <<fixPhase, skip>>
+     /\ indentFresh' = IF e.phase <= 3 THEN FALSE ELSE indentFresh
+     /\ UNCHANGED <<fixPhase, skip, normDone>>
 
 \* --------------------------------------------------------------------------------------------- index check at the next analysis
 IdxStep ==
@@ -123,7 +132,7 @@ IdxStep ==
   \* the model's own prediction (remap discipline of FixPipeline): an index the model expects to be fresh must be fresh
   /\ Chk("C18_RemapDiscipline", stale \/ E.ok)
   /\ stale' = ~E.ok
-  /\ UNCHANGED <<toks, fixPhase, skip, lastPS>>
+  /\ UNCHANGED <<toks, fixPhase, skip, lastPS, indentFresh, normDone>>
 
 AnalyzeStep ==
   /\ E.e = "Analyze"
@@ -141,19 +150,26 @@ NormStep ==
   /\ E.e = "Norm"
   /\ Chk("C03_NormEffect", NoBlank(E.toks) = DropTrailingWs(NoBlank(toks)))
   /\ Chk("I_Canonical", ~Canonical(toks) \/ Canonical(E.toks))
-  /\ toks' = E.toks /\ stale' = FALSE
+  /\ Chk("C13_CleanUpBelongsToPhase1", 1 \notin skip /\ lastPS[1] <= 1)
+  /\ toks' = E.toks /\ stale' = FALSE /\ normDone' = TRUE
+  /\ indentFresh' = FALSE
   /\ UNCHANGED <<fixPhase, skip, lastPS>>
+
+SetIndentStep ==
+  /\ E.e = "SetIndent"
+  /\ indentFresh' = TRUE
+  /\ UNCHANGED <<toks, stale, fixPhase, skip, lastPS, normDone>>
 
 FixBegin ==
   /\ E.e = "FixBegin"
-  /\ fixPhase' = E.fixPhase /\ skip' = Range(E.skip) /\ lastPS' = <<0, 0>>
-  /\ UNCHANGED <<toks, stale>>
+  /\ fixPhase' = E.fixPhase /\ skip' = Range(E.skip) /\ lastPS' = <<0, 0>> /\ normDone' = FALSE
+  /\ UNCHANGED <<toks, stale, indentFresh>>
 
 FixEnd ==
   /\ E.e = "FixEnd"
   /\ Chk("C18_NoUnobservedChange", toks = E.toks)
   /\ toks' = E.toks
-  /\ UNCHANGED <<stale, fixPhase, skip, lastPS>>
+  /\ UNCHANGED <<stale, fixPhase, skip, lastPS, indentFresh, normDone>>
 
 \* --------------------------------------------------------------------------------------------- C08, C10, C19
 Reparse ==
@@ -184,7 +200,7 @@ Machinery ==
   /\ Same
 
 Other ==
-  /\ E.e \in {"SetIndent", "CheckBegin", "CheckEnd", "Round", "Rejected"}
+  /\ E.e \in {"CheckBegin", "CheckEnd", "Round", "Rejected"}
   /\ Same
 
 \* C09: texts[k] = (interned) text of the file after the k-th --fix of the same file under the same configuration
@@ -201,7 +217,7 @@ End ==
   /\ Same
 
 Next == /\ l <= Len(Traces[tid].ev)
-        /\ (Parse \/ FixStep \/ IdxStep \/ AnalyzeStep \/ NormStep \/ FixBegin \/ FixEnd \/ Reparse \/ Probe \/ Crash \/ Machinery \/ Other \/ End)
+        /\ (Parse \/ FixStep \/ SetIndentStep \/ IdxStep \/ AnalyzeStep \/ NormStep \/ FixBegin \/ FixEnd \/ Reparse \/ Probe \/ Crash \/ Machinery \/ Other \/ End)
         /\ l' = l + 1 /\ tid' = tid
 
 Spec == Init /\ [][Next]_vars
